@@ -55,9 +55,24 @@ fn corpus() -> BoxedStrategy<Vec<Vec<String>>> {
             12 => (proptest::collection::vec(word, 1..=5), any::<bool>()).prop_map(|(w, dbl)| w.join(if dbl { "  " } else { " " })),
             1 => proptest::sample::select(vec!["", " ", "\t ", " a ", "\u{3000}b\u{a0}"]).prop_map(str::to_string),
         ];
+        // line counts at and around 256 / 512 (one or two files)
+        let many = (select(vec![255usize, 256, 257, 511, 512, 513]), any::<bool>()).prop_flat_map({
+            let line = line.clone();
+            move |(n, split)| {
+                proptest::collection::vec(line.clone(), n).prop_map(move |mut v| {
+                    if split {
+                        let rest = v.split_off(n / 3);
+                        vec![v, rest]
+                    } else {
+                        vec![v]
+                    }
+                })
+            }
+        });
         prop_oneof![
-            12 => proptest::collection::vec(proptest::collection::vec(line.clone(), 0..=4), 1..=2),
-            1 => proptest::collection::vec(proptest::collection::vec(line, 0..=20), 1..=3),
+            120 => proptest::collection::vec(proptest::collection::vec(line.clone(), 0..=4), 1..=2),
+            10 => proptest::collection::vec(proptest::collection::vec(line, 0..=20), 1..=3),
+            1 => many,
         ]
     });
     let nat = natural_lines();
@@ -153,8 +168,8 @@ struct ReplayInfo {
 impl Prop for C19 {
     type Case = Case;
     const ID: &'static str = "C19";
-    const RULE: &'static str = "corpora of 1-2 files x 0-4 lines x 1-5 words of length 1-7 over 1-3 letter alphabets (multi-byte and NFKC-expanding letters, the same letter precomposed and decomposed, Hangul jamo, double spaces), occasionally 1-3 natural sentences; x vocab_size in {256,320,384} x num_special_tokens 0..=70 (0-128 requested merges, usually more than the corpus supplies) x normalisation {None, NFKC, NFC, NFD, NFKD} x num_threads 0..=4 x max_lines_per_file. Oracle: table ids are exactly 0..n-1, n <= requested; replay with a full recount of all adjacent pair frequencies after every merge: entry i must be the concatenation of an adjacent pair whose frequency is positive and maximal (ties explored), training may stop early only when no pair is left; the table is well-formed and a BPETokenizer built from it round-trips the corpus lines and agrees with the table on ids. Non-trivial: a word with an overlapping or repeated pair, and (corpus exhausted before the request or >= 3 merges with a merged operand). Distinct = distinct serialised case.";
-    const ESSENTIAL: &'static [&'static str] = &["exhausted", "overlap_or_repeat", "depth>=2", "tie", "threads>1", "zero_merges_requested", "full_request", "normalised"];
+    const RULE: &'static str = "corpora of 1-2 files x 0-4 lines (occasionally up to 20 per file, and line totals of 255-257 / 511-513) x 1-5 words of length 1-7 over 1-3 letter alphabets (multi-byte and NFKC-expanding letters, the same letter precomposed and decomposed, Hangul jamo, double spaces), occasionally 1-3 natural sentences; x vocab_size in {256,320,384} x num_special_tokens 0..=70 (0-128 requested merges, usually more than the corpus supplies) x normalisation {None, NFKC, NFC, NFD, NFKD} x num_threads 0..=4 x max_lines_per_file. Oracle: table ids are exactly 0..n-1, n <= requested; replay with a full recount of all adjacent pair frequencies after every merge: entry i must be the concatenation of an adjacent pair whose frequency is positive and maximal (ties explored), training may stop early only when no pair is left; the table is well-formed and a BPETokenizer built from it round-trips the corpus lines and agrees with the table on ids. Non-trivial: a word with an overlapping or repeated pair, and (corpus exhausted before the request or >= 3 merges with a merged operand). Distinct = distinct serialised case.";
+    const ESSENTIAL: &'static [&'static str] = &["exhausted", "overlap_or_repeat", "depth>=2", "tie", "threads>1", "zero_merges_requested", "full_request", "normalised", "255_or_more_lines"];
 
     fn budget(tier: Tier) -> Budget {
         match tier {
@@ -212,6 +227,7 @@ impl Prop for C19 {
         let requested = c.vocab_size.saturating_sub(256).saturating_sub(c.num_special);
         out.label_if(requested == 0, "zero_merges_requested");
         out.label_if(c.threads > 1, "threads>1");
+        out.label_if(c.files.iter().map(|f| f.len()).sum::<usize>() >= 255, "255_or_more_lines");
         let norm = match c.norm_kind {
             1 => Some(Normalization::NFC),
             2 => Some(Normalization::NFD),
